@@ -7,9 +7,12 @@ CONSTANTS
   MaxCalls = 1
   Budget = 1
   AllowPop = FALSE
+  Cap = 0
+  AllowForce = FALSE
   SignalFixed = TRUE
   CloseBroadcasts = FALSE
   HelperLocked = TRUE
+  EvictKeepsItem = TRUE
 INVARIANTS NoStuckIter
 
 CHECK_DEADLOCK FALSE
